@@ -1,6 +1,6 @@
 /- Line-protocol driver for C11 (one JSON request per line, one answer line each).
    {"op":"legal","m":MODEL}                          -> true | JSON array of reasons "where|domain|op|why"
-   {"op":"forms","rows":[[opset, op, nIn, nOut, [attrs…]]…]}  -> JSON array of booleans (nodeLegalB, and nodeTypedB when a 6th field lists input dtypes)
+   {"op":"forms","rows":[[opset, op, nIn, nOut, [attrs…]]…]}  -> JSON array of booleans (nodeLegalB, and nodeTypedB when a 6th / 7th field lists input / output dtypes; attributes as `name` or `name:AttributeType`)
    The operator table is the regenerated `J2O.Gen.C11.schemas`.
 -/
 import J2O.Model.ModelTreeJson
@@ -28,15 +28,20 @@ def step (j : Json) : Except String String := do
       let dts ← match a[5]? with
         | some d => (← d.getArr?).toList.mapM (·.getNat?)
         | none => pure []
-      if dts.isEmpty then
+      let odts ← match a[6]? with
+        | some d => (← d.getArr?).toList.mapM (·.getNat?)
+        | none => pure []
+      if dts.isEmpty && odts.isEmpty then
         let n : Node := .mk "" o (List.replicate ni "x") (List.replicate no "y") attrs []
         out := out.push (Json.bool (nodeLegalB schemas v n))
       else
-        let ins := (List.range dts.length).map (fun k => "x" ++ toString k)
-        let vis : List (String × Annot) := ((List.range dts.length).zip dts).filterMap
-          (fun p => if p.2 = 0 then none else some ("x" ++ toString p.1, (⟨some p.2, none⟩ : Annot)))
-        let n : Node := .mk "" o ins (List.replicate no "y") attrs []
-        out := out.push (Json.bool (nodeLegalB schemas v n && nodeTypedB schemas v vis n))
+        let mk (pre : String) (l : List Nat) : List (String × Annot) := ((List.range l.length).zip l).filterMap
+          (fun p => if p.2 = 0 then none else some (pre ++ toString p.1, (⟨some p.2, none⟩ : Annot)))
+        let ins := (List.range (if dts.isEmpty then ni else dts.length)).map (fun k => "x" ++ toString k)
+        let outs := (List.range (if odts.isEmpty then no else odts.length)).map (fun k => "y" ++ toString k)
+        let n : Node := .mk "" o ins outs attrs []
+        out := out.push (Json.bool (decide (ins.length = ni) && decide (outs.length = no)
+          && nodeLegalB schemas v n && nodeTypedB schemas v (mk "x" dts ++ mk "y" odts) n))
     pure (Json.arr out).compress
   | _ => throw "unknown op"
 
